@@ -570,6 +570,41 @@ def index(base, key):
             return out
     if a is None:
         a = ('val', base)
+    if a[0] == 'app' and a[1] in ('where',) and len(a[2]) == 3 and isinstance(key, Poly) and key.const_value() is not None and \
+            any(isinstance(x, Tup) or (isinstance(x, Poly) and x.single_atom() is not None and x.single_atom()[0] == 'val'
+                                       and isinstance(x.single_atom()[1], Tup)) for x in a[2]):
+        # np.where over short vectors, element k: where(c[k], p[k], q[k]) (scalars broadcast)
+        def part(x):
+            if isinstance(x, Poly) and x.single_atom() is not None and x.single_atom()[0] == 'val' and isinstance(x.single_atom()[1], Tup):
+                x = x.single_atom()[1]
+            if isinstance(x, Tup):
+                k = int(key.const_value())
+                return x.items[k] if -len(x) <= k < len(x) else None
+            xa = x.single_atom() if isinstance(x, Poly) else None
+            if xa is not None and xa[0] == 'app' and xa[1] in ('le', 'lt', 'eq', 'ne') and len(xa[2]) == 2:
+                l, r = part(xa[2][0]), part(xa[2][1])
+                return app(xa[1], l, r) if l is not None and r is not None else None
+            if isinstance(x, Poly) and x.const_value() is not None:
+                return x
+            return None
+        parts = [part(x) for x in a[2]]
+        if all(p_ is not None and isinstance(p_, Poly) for p_ in parts):
+            return app('where', *parts)
+    if a[0] == 'app' and a[1] in ('arange', 'range') and isinstance(key, Poly) and key.single_atom() is not None and \
+            key.single_atom()[0] == 'iter' and all(isinstance(x, Poly) for x in a[2]) and 1 <= len(a[2]) <= 3:
+        # element k (a loop position, so 0 <= k < len) of an arithmetic progression: start + k*step
+        start = a[2][0] if len(a[2]) > 1 else ZERO
+        step = a[2][2] if len(a[2]) == 3 else ONE
+        return start + key * step
+    if a[0] == 'app' and a[1] == 'listcomp' and len(a[2]) == 2 and isinstance(key, Poly) and isinstance(a[2][0], Tup) and \
+            all(isinstance(i, Poly) for i in a[2][0].items):
+        # [(f(i), g(i)) for i in range(n)][k] = (f(k), g(k))
+        src = a[2][1].single_atom() if isinstance(a[2][1], Poly) else None
+        its = set()
+        for i in a[2][0].items:
+            its |= {x for x in value_atoms(i) if x[0] == 'iter'}
+        if src is not None and src[0] == 'app' and src[1] in ('range', 'arange') and len(src[2]) == 1 and len(its) == 1:
+            return Tup([subst_value(i, {next(iter(its)): key}) for i in a[2][0].items], a[2][0].kind)
     if a[0] == 'app' and a[1] == 'listcomp' and len(a[2]) == 2 and isinstance(key, Poly) and isinstance(a[2][0], Poly):
         # [body(i) for i in range(n)][k] = body(k)
         src = a[2][1].single_atom() if isinstance(a[2][1], Poly) else None
